@@ -416,6 +416,220 @@ func genBurst(c *hx.Ctx, rounds int) string {
 	return b.line()
 }
 
+
+// ---------------------------------------------------------------- round-2 classes
+
+// loads in flight across MANY sweep ticks: a loader running 20..100 x En (5..25 sweep ticks, consumed one by one by an
+// idle worker when P >= 2) and repeated Loads / Get2 of the same key at later instants while it is still running,
+// Future.Get2 on everything at the end. One load per key must stay the only one, whatever the number of sweeps.
+func genLongLoad(c *hx.Ctx) string {
+	r := c.Rng
+	b := &builder{}
+	b.P = []int{2, 2, 3, 2, 1}[r.Intn(5)]
+	b.J = []int{1, 2, 4, 128}[r.Intn(4)]
+	b.En = []int64{1000000, 2000000, 500000}[r.Intn(3)]
+	b.Ee = b.En / int64(1+r.Intn(4))
+	mult := []int64{20, 24, 33, 40, 100, 21}[r.Intn(6)]
+	long := mult*b.En + int64(r.Intn(1000))
+	k := keyPool[r.Intn(len(keyPool))]
+	t0 := int64(r.Intn(int(b.En)))
+	val := 1
+	first := b.add(t0, "load %%c k=%s loader=dur:%d,val:%d", k, long, val)
+	val++
+	loads := []int{first}
+	// later calls of the same key, most of them after the 5th .. 8th tick and before the loader returns
+	n := 2 + r.Intn(5)
+	used := map[int64]bool{t0: true}
+	for i := 0; i < n; i++ {
+		var t int64
+		switch r.Intn(8) {
+		case 0:
+			t = t0 + long - 1
+		case 1:
+			t = t0 + long + 1 + int64(r.Intn(int(b.En)))
+		case 2:
+			t = t0 + int64(r.Intn(int(16*b.En))) // early: fewer than 5 ticks so far
+		default:
+			lo := 20 * b.En
+			span := long - lo
+			if span < b.En {
+				span = b.En
+			}
+			t = lo + int64(r.Intn(int(span)))*4/5 + int64(r.Intn(1000)) + 7
+		}
+		for used[t] || t%(4*b.En) == 0 {
+			t++
+		}
+		used[t] = true
+		switch r.Intn(6) {
+		case 0, 1, 2, 3:
+			dur := []int64{1, 1000, b.En / 2, 2 * b.En}[r.Intn(4)]
+			cid := b.add(t, "load %%c k=%s loader=dur:%d,val:%d", k, dur, val)
+			val++
+			loads = append(loads, cid)
+		case 4:
+			b.add(t, "get2 %%c k=%s", k)
+		default:
+			// another key keeps a worker busy for a while
+			b.add(t, "load %%c k=%s loader=dur:%d,val:%d", "i:4242", []int64{b.En, 5 * b.En}[r.Intn(2)], 900+i)
+		}
+	}
+	end := t0 + long + 3*b.En
+	for i, l := range loads {
+		b.fget(end+int64(i), l)
+		if r.Intn(3) == 0 {
+			b.fget(b.atOf[l]+1, l) // an early waiter
+		}
+	}
+	return b.line()
+}
+
+func sameShardKey(r *hx.Rng, shard, j int) string {
+	n := shard + j*shardCount
+	switch j % 4 {
+	case 0:
+		return fmt.Sprintf("i:%d", n)
+	case 1:
+		return fmt.Sprintf("i64:%d", n)
+	case 2:
+		return fmt.Sprintf("u32:%d", n)
+	}
+	return fmt.Sprintf("i32:%d", n)
+}
+
+// MANY ENTRIES IN ONE SHARD, most of them rotted at the sweep tick (the sweep deletes n >= 128 entries of one shard),
+// plus entries of the same shard that are merely stale / fresh / in flight at the tick and are queried right after
+// it: the answers must be the ones without a sweep. All calls at distinct instants (the monitor's state set stays small).
+func genManyRotted(c *hx.Ctx, n int) string {
+	r := c.Rng
+	b := &builder{}
+	b.P = 1 + r.Intn(2)
+	b.J = []int{1, 4, 128}[r.Intn(3)]
+	b.En = []int64{1000000, 2000000}[r.Intn(2)]
+	b.Ee = b.En / 2
+	shard := r.Intn(shardCount)
+	tick := 4 * b.En
+	mix := r.Intn(4) == 0 // a quarter of the scenarios spread a third of the bulk over other shards
+	t := int64(5)
+	bulk := make([]string, 0, n)
+	for j := 0; j < n; j++ {
+		k := sameShardKey(r, shard, j+10)
+		if mix && j%3 == 2 {
+			k = fmt.Sprintf("i:%d", (shard+1+j%7)%shardCount+(j+10)*shardCount)
+		}
+		bulk = append(bulk, k)
+		if r.Intn(10) < 3 {
+			b.add(t, "set %%c k=%s val:%d", k, j)
+		} else {
+			b.add(t, "load %%c k=%s loader=dur:0,val:%d", k, j)
+		}
+		t += 2 + int64(r.Intn(3))
+	}
+	// entries of the same shard that must survive the sweep
+	type probe struct {
+		key string
+		age int64
+	}
+	var probes []probe
+	ages := []int64{b.En, b.En + 1, b.En + b.En/2, 2*b.En - 1, 2*b.En - 1000, b.En / 2, 1000}
+	np := 1 + r.Intn(3)
+	for i := 0; i < np; i++ {
+		age := ages[r.Intn(len(ages))] + int64(i)*3
+		if i == 0 { // always one in the stale window [E, 2E)
+			age = ages[r.Intn(5)]
+		}
+		k := sameShardKey(r, shard, 1+i)
+		at := tick - age
+		if r.Intn(3) == 0 {
+			b.add(at, "set %%c k=%s val:%d", k, 5000+i)
+		} else {
+			b.add(at, "load %%c k=%s loader=dur:0,val:%d", k, 5000+i)
+		}
+		probes = append(probes, probe{k, age})
+	}
+	if r.Intn(2) == 0 { // one load in flight across the tick
+		b.add(tick-1000, "load %%c k=%s loader=dur:%d,val:7777", sameShardKey(r, shard, 5), 5000)
+		probes = append(probes, probe{sameShardKey(r, shard, 5), 0})
+	}
+	q := tick + 1
+	for _, p := range probes {
+		b.add(q, "get2 %%c k=%s", p.key)
+		q += 2
+		cid := b.add(q, "load %%c k=%s loader=dur:%d,val:%d", p.key, []int64{1, 1000}[r.Intn(2)], 6000+int(q-tick))
+		b.fget(q+1, cid)
+		q += 3
+		b.add(q+b.En/4, "get2 %%c k=%s", p.key)
+	}
+	// the rotted ones behave like absent ones
+	for i := 0; i < 3; i++ {
+		k := bulk[r.Intn(len(bulk))]
+		b.add(q, "get2 %%c k=%s", k)
+		q += 2
+		if r.Intn(2) == 0 {
+			cid := b.add(q, "load %%c k=%s loader=dur:1,val:%d", k, 8000+i)
+			b.fget(q+1, cid)
+			q += 3
+		}
+	}
+	return b.line()
+}
+
+// MANY LIVE ENTRIES IN ONE SHARD at the sweep tick (n > 256 fresh or merely stale entries), then more traffic after
+// the tick and across the next tick (where they are rotted and deleted): everything must still return and resolve.
+func genManyLive(c *hx.Ctx, n int) string {
+	r := c.Rng
+	b := &builder{}
+	b.P = 1 + r.Intn(2)
+	b.J = []int{1, 4, 128}[r.Intn(3)]
+	b.En = []int64{1000000, 2000000}[r.Intn(2)]
+	b.Ee = b.En / 2
+	shard := r.Intn(shardCount)
+	tick := 4 * b.En
+	stale := r.Intn(3) == 0 // bulk is stale (age in [E,2E)) instead of fresh at the tick
+	start := tick - int64(n)*4 - 1000
+	if stale {
+		start = tick - b.En - b.En/2
+	}
+	mix := r.Intn(4) == 0
+	t := start
+	bulk := make([]string, 0, n)
+	for j := 0; j < n; j++ {
+		k := sameShardKey(r, shard, j+10)
+		if mix && j%4 == 3 {
+			k = fmt.Sprintf("i:%d", (shard+1+j%5)%shardCount+(j+10)*shardCount)
+		}
+		bulk = append(bulk, k)
+		if r.Intn(10) < 2 {
+			b.add(t, "set %%c k=%s val:%d", k, j)
+		} else {
+			b.add(t, "load %%c k=%s loader=dur:0,val:%d", k, j)
+		}
+		t += 2 + int64(r.Intn(2))
+	}
+	q := tick + 5
+	for i := 0; i < 6; i++ {
+		k := sameShardKey(r, shard, 2+i)
+		if i%2 == 1 {
+			k = bulk[r.Intn(len(bulk))]
+		}
+		cid := b.add(q, "load %%c k=%s loader=dur:%d,val:%d", k, []int64{0, 1000, b.En / 3}[r.Intn(3)], 9000+i)
+		b.fget(q+1, cid)
+		q += 4
+		b.add(q, "get2 %%c k=%s", bulk[r.Intn(len(bulk))])
+		q += 3 + int64(r.Intn(int(b.En/8)))
+	}
+	// after the second tick the bulk is rotted
+	q = 2*tick + 3
+	for i := 0; i < 3; i++ {
+		k := bulk[r.Intn(len(bulk))]
+		b.add(q, "get2 %%c k=%s", k)
+		cid := b.add(q+2, "load %%c k=%s loader=dur:1,val:%d", k, 9500+i)
+		b.fget(q+3, cid)
+		q += 7
+	}
+	return b.line()
+}
+
 func genPure(c *hx.Ctx, n int) {
 	r := c.Rng
 	for i := 0; i < n; i++ {
@@ -494,6 +708,9 @@ func gen(mode string) func(c *hx.Ctx) {
 				{w(1200, 20000), func() string { return genRandom(c) }, "random"},
 				{w(300, 5000), func() string { return genSweep(c) }, "sweep"},
 				{w(6, 100), func() string { return genBurst(c, 2+c.Rng.Intn(4)) }, "burst"},
+				{w(250, 6000), func() string { return genLongLoad(c) }, "longload"},
+				{w(3, 30), func() string { return genManyRotted(c, 130+c.Rng.Intn(170)) }, "manyrotted"},
+				{w(3, 30), func() string { return genManyLive(c, 258+c.Rng.Intn(60)) }, "manylive"},
 			}
 		case "C05":
 			genBoundary(c, emit)
@@ -501,6 +718,10 @@ func gen(mode string) func(c *hx.Ctx) {
 				{w(2500, 50000), func() string { return genRandom(c) }, "random"},
 				{w(1500, 30000), func() string { return genSweep(c) }, "sweep"},
 				{w(600, 10000), func() string { return genShare(c) }, "share"},
+				{w(60, 1500), func() string { return genLongLoad(c) }, "longload"},
+				{w(14, 120), func() string { return genManyRotted(c, 128+c.Rng.Intn(172)) }, "manyrotted"},
+				{w(0, 25), func() string { return genManyRotted(c, 300+c.Rng.Intn(700)) }, "manyrotted_big"},
+				{w(4, 40), func() string { return genManyLive(c, 258+c.Rng.Intn(60)) }, "manylive"},
 			}
 		default: // C06
 			phases = []phase{
@@ -508,6 +729,10 @@ func gen(mode string) func(c *hx.Ctx) {
 				{w(4, 50), func() string { return genBurst(c, 40) }, "burst40"},
 				{w(150, 8000), func() string { return genShare(c) }, "share"},
 				{w(150, 8000), func() string { return genRandom(c) }, "random"},
+				{w(60, 1500), func() string { return genLongLoad(c) }, "longload"},
+				{w(10, 100), func() string { return genManyLive(c, 257+c.Rng.Intn(64)) }, "manylive"},
+				{w(0, 25), func() string { return genManyLive(c, 320+c.Rng.Intn(700)) }, "manylive_big"},
+				{w(4, 40), func() string { return genManyRotted(c, 130+c.Rng.Intn(170)) }, "manyrotted"},
 			}
 		}
 		for _, ph := range phases {
@@ -534,6 +759,9 @@ func gen(mode string) func(c *hx.Ctx) {
 func Main(mode string) {
 	if os.Getenv("CACHE_PROCS") == "" {
 		runtime.GOMAXPROCS(1)
+	}
+	if os.Getenv("CACHE_CHILD") == "" && os.Getenv("CACHE_NOSUPERVISOR") == "" {
+		os.Exit(supervise())
 	}
 	hx.Main(gen(mode), func(c *hx.Ctx, line string) string {
 		w := strings.Fields(line)
